@@ -303,12 +303,30 @@ func buildCorr(f *ssa.Function) *corrInfo {
 	var cands []cand
 	count := map[string]int{}
 	ids := map[ssa.Value]int{}
+	// one computed value tested by several branches (`started := c.chTask != nil; if !started {…}; …; if started {…}`):
+	// its truth is that of the one evaluation, whatever happens to the memory it was computed from
+	condUses := map[ssa.Value]int{}
+	for _, b := range f.Blocks {
+		if iff := blockIf(b); iff != nil {
+			if _, isIn := iff.Cond.(ssa.Instruction); isIn {
+				if _, isPhi := iff.Cond.(*ssa.Phi); !isPhi {
+					condUses[iff.Cond]++
+				}
+			}
+		}
+	}
 	for _, b := range f.Blocks {
 		iff := blockIf(b)
 		if iff == nil {
 			continue
 		}
 		if _, isK := iff.Cond.(*ssa.Const); isK {
+			continue
+		}
+		if condUses[iff.Cond] >= 2 {
+			key := "same:" + iff.Cond.Name()
+			cands = append(cands, cand{b, key, true, nil, []ssa.Value{iff.Cond}})
+			count[key]++
 			continue
 		}
 		k := &corrKeyer{c: curCtx, ids: ids}
